@@ -44,9 +44,6 @@ Oracle boundaries (rule 1)
 """
 from __future__ import annotations
 
-import itertools
-import math
-
 import numpy as np
 
 from mc import product
@@ -341,8 +338,7 @@ class Oracle:
     def monolithic(self, fn: str, x: str):
         """Self-check: one dense solve over every produced variable (explicit outputs as unknowns too)."""
         bs, sizes = self.bodies, self.sizes
-        names = [v for b in bs for v in b.outs if v not in self.residual_of.values() or True]
-        names = [v for v in dict.fromkeys(names) if v not in {r for b in bs for r in b.state}]
+        names = [v for v in dict.fromkeys(v for b in bs for v in b.outs) if v not in {r for b in bs for r in b.state}]
         off, k = {}, 0
         for v in names:
             off[v] = k
@@ -559,15 +555,52 @@ def check_jac(jac, oracle: Oracle, ins, outs, exact_keys=True):
     return bad, worst
 
 
+REQUEST_TIMEOUT = 20  # seconds; a request costs 0.02-0.1 s.  A linear solver that does not terminate on a 5 x 5 system is reported
+
+
+class _RequestTimeout(Exception):
+    pass
+
+
+class _guard:
+    """SIGALRM deadline around one request, nested inside the per-case alarm of mc.core.pmap (restored afterwards)."""
+
+    def __enter__(self):
+        import signal
+        import time
+
+        def handler(signum, frame):
+            raise _RequestTimeout()
+
+        self._t0 = time.time()
+        self._old = signal.signal(signal.SIGALRM, handler)
+        self._left = signal.alarm(REQUEST_TIMEOUT)
+        return self
+
+    def __exit__(self, *exc):
+        import signal
+        import time
+
+        signal.alarm(0)
+        signal.signal(signal.SIGALRM, self._old)
+        if self._left:
+            signal.alarm(max(1, int(self._left - (time.time() - self._t0))))
+        return False
+
+
 def one_request(cfg: dict, point: int, ins, outs):
     """Fresh disciplines + fresh MDA, one linearize.  -> (jac | None, observations, [(inv, msg)])."""
     oracle = _oracle(cfg["graph"], point)
     obs = {}
     try:
-        spec, bs, discs, mda = build_mda(cfg, xpoint(0, oracle.sizes))
-        mda.add_differentiated_inputs(list(ins))
-        mda.add_differentiated_outputs(list(outs))
-        jac = mda.linearize({k: v.copy() for k, v in oracle.x.items()})
+        with _guard():
+            spec, bs, discs, mda = build_mda(cfg, xpoint(0, oracle.sizes))
+            mda.add_differentiated_inputs(list(ins))
+            mda.add_differentiated_outputs(list(outs))
+            jac = mda.linearize({k: v.copy() for k, v in oracle.x.items()})
+    except _RequestTimeout:
+        obs["timeout"] = True
+        return None, obs, [("linearize-terminates", f"no answer within {REQUEST_TIMEOUT} s (a request normally costs < 0.1 s)")]
     except Exception as e:
         if _is_breakdown(e, cfg):
             obs["breakdown"] = True
@@ -622,11 +655,11 @@ def cfg_key(cfg):
 # ------------------------------------------------------------------------------------------------
 def _requests(cfg, which):
     spec = system_specs()[cfg["graph"]]
-    if which == "all":
-        # largest request first (its blocks are the reference of "equal whichever subset"), then by size
-        subs_i = sorted(product.nonempty_subsets(spec["req_in"]), key=lambda s: -len(s))
-        subs_o = sorted(product.nonempty_subsets(spec["req_out"]), key=lambda s: -len(s))
-        return [(list(i), list(o)) for i in subs_i for o in subs_o]
+    if which == "all":  # simplest first: the kept witness of a signature is the smallest failing request
+        subs_i = product.nonempty_subsets(spec["req_in"])
+        subs_o = product.nonempty_subsets(spec["req_out"])
+        reqs = [(list(i), list(o)) for i in subs_i for o in subs_o]
+        return sorted(reqs, key=lambda r: len(r[0]) + len(r[1]))
     return [(list(i), list(o)) for i, o in which]
 
 
@@ -635,25 +668,26 @@ def part_product(case, tally):
     cfg, point = case["cfg"], case["point"]
     oracle = _oracle(cfg["graph"], point)
     out = {"violations": [], "requests": []}
-    reference = {}  # (o, i) -> block from the full request
+    reference = {}  # (o, i) -> (block, request) of the first request that returned it
     reqs = _requests(cfg, case.get("requests", "all"))
-    full = reqs[0]
     for ins, outs in reqs:
         jac, obs, bad = one_request(cfg, point, ins, outs)
         shape = request_shape(cfg, ins, outs)
+        first = None
         if jac is not None and not bad:
             for o in outs:
                 for i in ins:
                     blk = _dense(jac[o][i])
                     if (o, i) not in reference:
-                        reference[o, i] = blk
+                        reference[o, i] = (blk, [ins, outs])
                     else:
                         _, bound = oracle.total(o, i)
-                        err = float(np.max(np.abs(blk - reference[o, i])))
+                        err = float(np.max(np.abs(blk - reference[o, i][0])))
                         if not err <= 2 * bound:
-                            bad.append(("block-independent-of-request", f"d{o}/d{i} differs by {err:.3e} from the block of request {full} (2 x bound {2 * bound:.3e})"))
+                            first = reference[o, i][1]
+                            bad.append(("block-independent-of-request", f"d{o}/d{i} differs by {err:.3e} from the block of request {first} (2 x bound {2 * bound:.3e})"))
         for inv, msg in bad:
-            sub = {**case, "requests": [[ins, outs]] if inv != "block-independent-of-request" else [list(full), [ins, outs]]}
+            sub = {**case, "requests": [[ins, outs]] if inv != "block-independent-of-request" else [first, [ins, outs]]}
             tally.violation(signature(inv, cfg, shape, msg), sub, f"{inv}: {msg}\n  config={cfg} point={point} inputs={ins} outputs={outs}")
             out["violations"].append({"invariant": inv, "inputs": ins, "outputs": outs, "message": msg})
         mode_used = "-"
@@ -670,6 +704,9 @@ def part_product(case, tally):
             tally.count(f"lanczos_type_solver_breakdown_accepted:{cfg['graph']}:{cfg['solver']}")
         out["requests"].append({"inputs": ins, "outputs": outs, **obs,
                                 "jacobian": None if jac is None else {o: {i: _dense(jac[o][i]).tolist() for i in jac[o]} for o in jac}})
+        if obs.get("timeout"):  # the run is red already; do not spend REQUEST_TIMEOUT on each remaining request of this configuration
+            tally.count("requests_skipped_after_a_timeout", len(reqs) - len(out["requests"]))
+            break
     return out
 
 
@@ -718,7 +755,12 @@ def history_mda(cfg, points, r1, r2):
     for step, (req, orc) in enumerate(((r1, o1), (r2, o2))):
         label = "first" if step == 0 else "second"
         try:
-            jac, ins, outs = _linearize_request(mda, orc, req, orc.x)
+            with _guard():
+                jac, ins, outs = _linearize_request(mda, orc, req, orc.x)
+        except _RequestTimeout:
+            bad.append((label, "linearize-terminates", f"no answer within {REQUEST_TIMEOUT} s"))
+            obs["timeout"] = True
+            return bad, obs
         except ValueError as e:
             if req == ALL and LIMITATION in str(e):  # oracle boundary, see the module docstring
                 obs[label] = "documented-limitation"
@@ -765,7 +807,12 @@ def history_assembly(cfg, point, r1, r2):
         return [("first", "linearize-raises", f"build/execute: {type(e).__name__}: {e}")], obs
     for label, (ins, outs) in (("first", r1), ("second", r2)):
         try:
-            jac = _assembly_call(mda, cfg, ins, outs)
+            with _guard():
+                jac = _assembly_call(mda, cfg, ins, outs)
+        except _RequestTimeout:
+            bad.append((label, "linearize-terminates", f"no answer within {REQUEST_TIMEOUT} s"))
+            obs["timeout"] = True
+            return bad, obs
         except Exception as e:
             bad.append((label, "linearize-raises", f"{type(e).__name__}: {str(e)[:300]}"))
             return bad, obs
@@ -829,6 +876,9 @@ def part_history(case, tally):
                    outcome=f"{level}:{cfg['graph']}:{rel}:{'limitation' if first_lim else 'raises' if any(b[1] == 'linearize-raises' for b in bad) else 'ok' if not bad else 'bad'}",
                    sample={"config": cfg, "points": case["points"], "r1": r1, "r2": r2, **obs} if rel == "superset->subset" and cfg["graph"] == "weakdown" and len(r2[0]) == 1 and len(r2[1]) == 1 else None)
         out["runs"].append({"r1": r1, "r2": r2, "relation": rel, **{k: v for k, v in obs.items()}})
+        if obs.get("timeout"):
+            tally.count("requests_skipped_after_a_timeout", len(seconds) - len(out["runs"]))
+            break
     return out
 
 
@@ -870,14 +920,14 @@ def cases(thorough: bool, solvers: list):
 
     # A. the full product  graph x mode x matrix type x LU x solver x (input subset x output subset)  [x point x MDA kind]
     for kind in (kinds if thorough else [DEFAULT_KIND]):
-        for point in ((0, 1) if thorough else (0,)):
+        for point in ((0, 1) if thorough and kind == DEFAULT_KIND else (0,)):
             for lin in full_lin:
                 for graph in GRAPHS:
                     c = emit({"graph": graph, "mda": kind, **lin}, point)
                     if c:
                         yield c
-    # B. quick: the second point (default kind) and the other MDA kinds, default solver
-    for kind, lins in [(DEFAULT_KIND, default_lin)] + [(k, nolu_lin) for k in others]:
+    # B. the second point (default kind, quick) and the other MDA kinds at the second point, default solver
+    for kind, lins in [(DEFAULT_KIND, default_lin)] + [(k, default_lin if thorough else nolu_lin) for k in others]:
         for lin in lins:
             for graph in GRAPHS:
                 c = emit({"graph": graph, "mda": kind, **lin}, 1)
@@ -898,7 +948,7 @@ def cases(thorough: bool, solvers: list):
         alphabet = "full" if thorough and kind == DEFAULT_KIND else "reduced"
         for graph in GRAPHS:
             cfg = {"graph": graph, "mda": kind, **dflt}
-            for points in (([0, 1], [1, 1]) if thorough and kind == DEFAULT_KIND else ([0, 1],)):
+            for points in (([0, 1], [1, 1]) if kind == DEFAULT_KIND else ([0, 1],)):  # new point | same point (cache hit of the MDA)
                 for r1 in history_requests(cfg, alphabet) + [ALL]:
                     yield {"part": "history", "level": "mda", "cfg": cfg, "points": points, "r1": r1, "r2": alphabet}
     for kind, modes in ([(DEFAULT_KIND, MODES), ("MDAChain", ["auto"])] if thorough else [(DEFAULT_KIND, ["auto"])]):
@@ -937,7 +987,8 @@ def run(ctx):
         "rule": "E2 full product: coupling graph (6) x linearization mode (3) x {sparse matrix, sparse matrix + LU, linear operator} x linear "
         "solver (every factory algorithm that accepts a non-symmetric system) x every non-empty subset of 3 design inputs x every non-empty "
         "subset of 3 outputs (a coupling / self-coupling / state among them), each request on fresh disciplines and a fresh MDA"
-        + (" x 2 input points x 5 MDA kinds" if ctx.thorough else "; the second input point, the 4 other MDA kinds, 3 representations of the "
+        + (" x 5 MDA kinds (x 2 input points for the default kind; second point with the default solver for the others); 3 representations of "
+           "the disciplines' Jacobians x 5 kinds x mode x matrix type x LU" if ctx.thorough else "; the second input point, the 4 other MDA kinds, 3 representations of the "
            "disciplines' Jacobians are crossed with mode x matrix type x LU at the default solver")
         + "; histories: every ordered pair of requests on the same MDA object through the discipline API (cumulative requests + "
         "compute_all_jacobians) and through JacobianAssembly.total_derivatives (arbitrary pairs).  A case is non-trivial when the request "
@@ -970,6 +1021,6 @@ def replay(case, ctx):
     obs["case"] = case
     obs.setdefault("violations", [])
     for v in t.violations.values():
-        if not any(v["signature"]["invariant"] == o.get("invariant") for o in obs["violations"]):
+        if not any(v["signature"]["invariant"].split(":")[0] == o.get("invariant") for o in obs["violations"]):
             obs["violations"].append({"invariant": v["signature"]["invariant"], "message": v["message"]})
     return obs
